@@ -377,7 +377,7 @@ def _run_cases(ctx, pa, binp, d, all_thms):
     if ctx.tier == "thorough":
         args = ["-pool", "48", "-extra", "400", "-rules", "160", "-shards", "8"]
     else:
-        args = ["-pool", "48", "-extra", "120", "-rules", "64", "-shards", "1"]
+        args = ["-pool", "48", "-extra", "80", "-rules", "48", "-shards", "1"]
     rc, out = vlib.sh([binp, "-outdir", d, "-jsonl", side, "-seed", str(ctx.seed), "-testdata",
                        os.path.join(vlib.REPO, "semantic", "testdata"), "-kinds", ",".join(implemented())] + args, timeout=900)
     if rc != 0:
